@@ -561,6 +561,42 @@ fn environment_cases(ctx: &mut Ctx) {
     let _ = std::fs::remove_file(&odd);
     let _ = std::fs::remove_file(&decoy);
     unexaminable_roots(ctx);
+    low_descriptor_roots(ctx);
+}
+
+/// 150 starting points (operands and -files0-from) with 64 file descriptors, with -xdev / -mount and
+/// without: every one is walked.
+fn low_descriptor_roots(ctx: &mut Ctx) {
+    use crate::props::lowfd;
+    let sbx = lowfd::build(ctx);
+    let roots: Vec<String> = (0..lowfd::NDIRS).map(|i| format!("lf/d{i:03}")).collect();
+    let want: Vec<u8> = roots.iter().flat_map(|r| format!("{r}\0{r}/f\0{r}/l\0").into_bytes()).collect();
+    let listf = sbx.join(".mc-files0");
+    std::fs::write(&listf, roots.iter().flat_map(|r| r.bytes().chain(std::iter::once(0))).collect::<Vec<u8>>()).unwrap();
+    for opt in ["", "-xdev", "-mount"] {
+        for via_list in [false, true] {
+            let lf = listf.display().to_string();
+            let mut args: Vec<&str> = if via_list { vec!["-files0-from", &lf] } else { roots.iter().map(|s| s.as_str()).collect() };
+            args.push("-sorted");
+            if !opt.is_empty() {
+                args.push(opt);
+            }
+            args.push("-print0");
+            let o = lowfd::find(ctx, &args, 64, vec![]);
+            ctx.rep.evaluations += 1;
+            ctx.rep.nontrivial += 1;
+            ctx.rep.count("low_descriptor_limit_cases", 1);
+            if o.died() || o.code != Some(0) || o.out != want {
+                ctx.rep.violation(
+                    "C18 150 starting points with 64 file descriptors: not every starting point is walked",
+                    format!("find <150 starting points{}> -sorted {opt} -print0 under RLIMIT_NOFILE=64: status {:?}; {} entries printed, expected {}; stderr {:?}", if via_list { " via -files0-from" } else { "" }, o.code, o.out.iter().filter(|&&c| c == 0).count(), 3 * lowfd::NDIRS, String::from_utf8_lossy(&o.err).lines().take(2).collect::<Vec<_>>()),
+                    json!({"prop":"C18","scale":true}),
+                );
+            }
+        }
+    }
+    let _ = std::fs::remove_file(&listf);
+    lowfd::remove(ctx);
 }
 
 /// Starting points that cannot be examined for reasons other than "no such file": a link to itself
